@@ -471,7 +471,7 @@ SPECTRA = {  # m^2/T^2 assigned cyclically to the species; (bosons, fermions)
     "heavy": ([400.0, 900.0, 1600.0], [625.0, 2500.0]),
     "mixed": ([0.0, 0.25, 900.0, -4.0, 30.0, -0.5], [0.0, 4.0, 900.0, 0.25]),
 }
-TEMPS = [1e-2, 1.0, 1e2]
+TEMPS = [1e-2, 1.0, 1e2, 1e-8, 1e-5, 1e6]  # "every temperature": includes unit systems where T is numerically tiny (absolute regulators) or huge
 CONFIGS = ["direct", "default-interpolation", "passed-table"]
 
 _POT = {}
